@@ -124,7 +124,93 @@ def environment(rnd):
     rnd.shuffle(items)
     enums = {'Color': items[:rnd.randint(2, 5)]}
     consts = {'LIMIT': ('integer', str(rnd.randint(0, 9))), 'GREETING': ('string', 'go'), 'ENABLED': ('boolean', 'true')}
+    funcs.update(random_funcs(rnd, rnd.randint(3, 5)))
     return {'funcs': funcs, 'ops': ops, 'bridges': bridges, 'derived': derived, 'enums': enums, 'consts': consts}
+
+
+def random_funcs(rnd, n=4):
+    """a random call graph: functions g0..g(n-1) with a depth parameter d (every call passes d - 1 under `if param.d > 0`,
+    so any graph - recursive, mutually recursive, branching - terminates), integer / string / boolean parameters bound by
+    name, locals drawn from one small pool of names (the callers' and the parameters' names among them), calls in
+    expressions, arguments, loop conditions and where clauses, returns at several depths, paths without return"""
+    names = ['g%d' % i for i in range(n)]
+    sig = {}
+    for g in names:
+        extra = rnd.sample([('s', 'string'), ('f', 'boolean'), ('y', 'integer')], rnd.randint(0, 2))
+        sig[g] = [('d', 'integer'), ('x', 'integer')] + extra
+    pool = ['x', 'y', 'acc', 'i', 'd', 's']
+
+    def call(g, depth_expr, argx):
+        kw = {'d': depth_expr, 'x': argx}
+        for pn, pt in sig[g][2:]:
+            kw[pn] = Str(rnd.choice(['go', 'stop'])) if pt == 'string' else (B(rnd.random() < 0.5) if pt == 'boolean' else I(rnd.randint(0, 3)))
+        items = list(kw.items())
+        rnd.shuffle(items)
+        return fcall(g, **dict(items))
+    funcs = {}
+    for g in names:
+        acc = rnd.choice(['acc', 'x', 'y'])            # may be named like a parameter
+        body = [Assign(V(acc), Bin('+', P('x'), I(rnd.randint(0, 3))))]
+        down = Bin('-', P('d'), I(1))
+        inner = []
+        for _ in range(rnd.randint(1, 2)):
+            callee = rnd.choice(names)
+            form = rnd.randint(0, 3)
+            c = call(callee, down, Bin('%', V(acc), I(5)))
+            if form == 0:
+                inner.append(Assign(V(acc), Bin('+', V(acc), c)))
+            elif form == 1:
+                tmp = rnd.choice(pool)
+                if tmp == acc:
+                    tmp = 'i'
+                inner += [Assign(V(tmp), c), Assign(V(acc), Bin('+', V(acc), Bin('%', V(tmp), I(7))))]
+            elif form == 2:
+                inner.append(If(Bin('>', c, I(rnd.randint(0, 4))), [Assign(V(acc), Bin('+', V(acc), I(1)))],
+                                [(Bin('==', P('x'), I(rnd.randint(0, 3))), [Ret(Bin('+', V(acc), I(50)))])], None))
+            else:
+                cn = 'i' if acc != 'i' else 'y'
+                inner += [Assign(V(cn), I(0)),
+                          While(Bin('<', Bin('+', V(cn), Bin('%', c, I(2))), I(2)), [Assign(V(cn), Bin('+', V(cn), I(1))),
+                                                                                       Assign(V(acc), Bin('+', V(acc), I(2)))])]
+        body.append(If(Bin('>', P('d'), I(0)), inner, [], None))
+        for pn, pt in sig[g][2:]:
+            if pt == 'string':
+                body.append(If(Bin('==', P(pn), Str('go')), [Assign(V(acc), Bin('+', V(acc), I(10)))], [], None))
+            elif pt == 'boolean':
+                body.append(If(P(pn), [Ret(Bin('*', V(acc), I(2)))], [], None))
+            else:
+                body.append(Assign(V(acc), Bin('+', V(acc), P(pn))))
+        if rnd.random() < 0.8:
+            body.append(Ret(Bin('+', V(acc), Bin('*', P('d'), I(100)))))
+        else:
+            body += [If(Bin('>', V(acc), I(3)), [Ret(V(acc))], [], None), Ret(I(0))]
+        funcs[g] = {'params': [p for p, _ in sig[g]], 'ret': 'integer', 'ptypes': dict(sig[g]), 'body': body}
+    return funcs
+
+
+def random_scripts(rnd, env):
+    gs = sorted(n for n in env['funcs'] if n.startswith('g') and n[1:].isdigit())
+    out = []
+
+    def call(g, d):
+        f = env['funcs'][g]
+        kw = {}
+        for pn in f['params']:
+            pt = f['ptypes'][pn]
+            kw[pn] = I(d) if pn == 'd' else (Str(rnd.choice(['go', 'x'])) if pt == 'string' else (B(rnd.random() < 0.5) if pt == 'boolean' else I(rnd.randint(0, 4))))
+        items = list(kw.items())
+        rnd.shuffle(items)
+        return fcall(g, **dict(items))
+    for g in gs:
+        out.append([Assign(V('x'), I(7)), Assign(V('acc'), I(8)), Assign(V('r'), call(g, rnd.randint(0, 3))),
+                    Ret(Bin('+', Bin('*', V('r'), I(100)), Bin('+', V('x'), V('acc'))))])
+    g1, g2 = rnd.choice(gs), rnd.choice(gs)
+    out.append([Create('a1', 'A'), Assign(Field(V('a1'), 'N'), I(rnd.randint(0, 9))), Create('a2', 'A'), Assign(Field(V('a2'), 'N'), I(rnd.randint(0, 30))),
+                SelectFrom('many', 'as', 'A', Bin('>=', Field({'t': 'selected'}, 'N'), call(g1, 2))),
+                Assign(V('c'), I(0)),
+                While(Bin('<', Bin('+', V('c'), call(g2, 1)), I(rnd.randint(3, 12))), [Assign(V('c'), Bin('+', V('c'), I(1)))]),
+                Ret(Bin('+', Bin('*', Un('cardinality', V('as')), I(100)), V('c')))])
+    return out
 
 
 def scripts(rnd, env):
@@ -168,6 +254,7 @@ def scripts(rnd, env):
                 Assign(V('v'), ocall(V('a'), 'sop', k=I(rnd.randint(0, 9)))),
                 Assign(V('w'), icall('A', 'csh', 'class', x=I(rnd.randint(0, 6)))),
                 Ret(Bin('+', Bin('*', V('v'), I(1000)), Bin('+', Bin('*', V('w'), I(10)), Field(V('a'), 'N'))))])
+    out += random_scripts(rnd, env)
     return out
 
 
@@ -175,9 +262,10 @@ def python_calls(rnd, env):
     """invocations from Python: [(kind, namespace, name, literal arguments)]"""
     lit = lambda ty: I(rnd.randint(0, 6)) if ty == 'integer' else (Str(rnd.choice(['go', 'double', 'x'])) if ty == 'string' else B(rnd.random() < 0.5))
     calls = []
-    for name in ['fact', 'even', 'odd', 'mix', 'clobber', 'maybe', 'search', 'shadow', 'lim']:
+    for name in ['fact', 'even', 'odd', 'mix', 'clobber', 'maybe', 'search', 'shadow', 'lim'] + \
+            sorted(n for n in env['funcs'] if n.startswith('g') and n[1:].isdigit()):
         f = env['funcs'][name]
-        ps = [(p, lit(f['ptypes'][p])) for p in f['params']]
+        ps = [(p, I(rnd.randint(0, 3)) if p == 'd' else lit(f['ptypes'][p])) for p in f['params']]
         rnd.shuffle(ps)
         calls.append({'k': 'func', 'ns': '', 'n': name, 'ps': [{'n': p, 'e': e} for p, e in ps]})
     calls.append({'k': 'classop', 'ns': 'A', 'n': 'cop', 'ps': [{'n': 'x', 'e': lit('integer')}]})
